@@ -110,7 +110,7 @@ func generate(o *hx.Opts) []*dirIn {
 	add("dropin", []entryIn{probe("10-okcfg", 0o755)}, []dropinIn{{Name: "okcfg.conf", Kind: "file", Content: "multi\nline\n\tконфиг ✓\n"}})
 
 	// ---- fail
-	for _, f := range []string{"exit", "hang", "cfgfail", "syncfail", "die", "script", "text", "wasm", "linkmissing"} {
+	for _, f := range []string{"exit", "hang", "drop", "cfgfail", "syncfail", "die", "script", "text", "wasm", "linkmissing"} {
 		for pos := 0; pos < 3; pos++ {
 			var es []entryIn
 			var ds []dropinIn
@@ -235,6 +235,8 @@ func randomDir(r *rand.Rand, stream string) *dirIn {
 			behave = "idleclose"
 		case x < 11:
 			behave = "idleexit"
+		case x < 12:
+			behave = "drop"
 		}
 		name := fmt.Sprintf("%s-%s%c%d", idx, behave, 'a'+rune(r.Intn(3)), r.Intn(3))
 		e := entryIn{Name: name, Kind: "file", Mode: 0o755, Content: "probe"}
